@@ -715,7 +715,7 @@ def run(rep):
         law = dict(shapes=[11, 12, 13, 14, 21, 22, 23, 24, 41, 42], K=3, exh=2, exh_kinds=("rtg", "nstep", "gae"))
         rel = dict(shapes=[11, 12, 13, 14, 21, 22, 23, 41], K=2, exh=1)
         gen = dict(shapes=[11, 12, 13, 14, 21, 22, 23, 24, 41, 42], K=3, exh=2, exh_kinds=("rtg", "nstep", "gae"))
-        float_cap = 10**9
+        float_cap = 150
     rep.rule = (
         "TLC stages a vector per operation (rtg, nstep, gae, a2c, ppo, mrq, enc): shape B x H in %s (coded 10B+H; B=4 encoder only), every "
         "gamma/lambda in {0,1/2,1} (+1/4 in the thorough tier), EVERY termination pattern, data exhaustive over the 3-value lattices for "
